@@ -76,6 +76,19 @@ def getDT (n dissIdx : Nat) (currDT ratio : α) (growth psd bounds : Nat → α)
     let m := maxList (idx.map (fun j => absS (growth j)))
     if m < 0 ∨ 0 < m then ratio * (bounds 1 - bounds 0) / m else currDT
 
+
+/-- `np.cumsum(f)[i]` -/
+def cumSum (f : Nat → α) : Nat → α
+  | 0 => f 0
+  | i+1 => cumSum f i + f (i+1)
+
+/-- getDissolutionIndex (PopulationBalance.py 466-490):
+`max(argmax(CumulativeMoment(3) > maxDissolution * ThirdMoment), minIndex)`; `vol i = psd i * size i ^ 3` -/
+def dissolutionIndex (n : Nat) (maxDiss : α) (vol : Nat → α) (minIndex : Nat) : Nat :=
+  let total := if n = 0 then 0 else cumSum vol (n-1)
+  let a := argmaxFirst (fun i => decide (maxDiss * total < cumSum vol i)) n
+  if a < minIndex then minIndex else a
+
 end dt
 
 end KawinV.PBM
